@@ -44,7 +44,7 @@ def read_out(out_dir):
 
 
 def run_convert(spec=None, probes=None, label='', factor=1, extra_files=(), same_dir=False, fill=0,
-                twice=False, out_variant=None):
+                twice=False, out_variant=None, stale_out=False):
     """Build the source (a generated dataset, or a merge of generated probes), convert it, collect.
 
     Returns a dict: truth / truths, src_before, src_after, out (arrays by file name), exception,
@@ -106,7 +106,18 @@ def run_convert(spec=None, probes=None, label='', factor=1, extra_files=(), same
                 r0 = c.convert(d / 'alf_first', label='first' if not label else '', ampfactor=3)
                 if r0 is not None:
                     r0.close()
-            ret = c.convert(out_dir, label=label, ampfactor=factor)
+            if stale_out and not same_dir:
+                # the output directory already exists and holds cluster tables of an older export
+                # (other values): converting with force=True replaces them
+                os.makedirs(str(out_dir), exist_ok=True)
+                for fn, arr in (('clusters.channels.npy', np.zeros(2, dtype=np.int64)),
+                                ('clusters.peakToTrough.npy', np.full(2, 7.5)),
+                                ('clusters.amps.npy', np.full(2, -1.0)),
+                                ('spikes.depths.npy', np.zeros(3))):
+                    np.save(os.path.join(str(out_dir), fn), arr)
+                ret = c.convert(out_dir, force=True, label=label, ampfactor=factor)
+            else:
+                ret = c.convert(out_dir, label=label, ampfactor=factor)
             if ret is not None:
                 res['returned'] = model_view(ret)
                 ret.close()
